@@ -148,10 +148,12 @@ TEXT = {
              "deframe_any_schedule (every chunking and every placement of reads returns exactly the framed messages), "
              "deliver_exactly_once_at_addressee (hop-by-hop walk over arbitrary networks with a route), addressee_unique (IDs that differ "
              "only in letter case are different nodes), stream_link_roundtrip (encode, frame, any chunking, deframe, decode = identity on "
-             "every sequence of datagrams). Tie: regenerated layout/"
+             "every sequence of datagrams), local_send_intact (a datagram for a socket of the same node carries its own copy of the "
+             "payload, whatever the sender does with its buffer afterwards). Tie: regenerated layout/"
              "framing facts + byte-exact differential runs of translateData*, the framer and handleMessageData (single node and multi-node pump), "
              "and real nodes in a chain (link engine): payloads of 0 … MTU bytes (MTU-37 … MTU included) sent across real links between nodes "
-             "whose IDs may differ only in case, every node listening on the service — received exactly once, at the addressee, unaltered.",
+             "whose IDs may differ only in case, every node listening on the service — received exactly once, at the addressee, unaltered; "
+             "bursts of 150000 datagrams to a listener on the same node from a sender that reuses its buffer after every WriteTo.",
         note=BASE_NOTE + "Assumed: highwayhash collision-free on the names in play; Go channel/map semantics. Concurrent senders are "
              "covered by the model's independence of packets (each send is its own walk), not by a schedule theorem: partial."),
     "C11": dict(
